@@ -701,6 +701,12 @@ func connRequest(conn, idx int, beh string, pad int) []byte {
 
 // framed but undecodable: a valid TTLV item that is not a decodable request.
 func badRequest(variant int) []byte {
+	if variant >= undecBase {
+		// a member of the tree-mutation family (srv_undec.go)
+		if fam, _ := undecFamily(); len(fam) > 0 {
+			return fam[(variant-undecBase)%len(fam)].TTLV
+		}
+	}
 	switch variant % 3 {
 	case 0: // RequestMessage structure whose content is an Integer instead of a RequestHeader
 		return []byte{0x42, 0x00, 0x78, 0x01, 0, 0, 0, 16, 0x42, 0x00, 0x0D, 0x02, 0, 0, 0, 4, 0, 0, 0, 1, 0, 0, 0, 0}
@@ -1141,7 +1147,17 @@ type violOut struct {
 // c08Oracle: the property statements on the observation of one connection.
 func c08Oracle(sc *connScen, o *connObs) []violOut {
 	var vs []violOut
-	add := func(oracle, key, detail string) { vs = append(vs, violOut{oracle, "srv:" + key, detail}) }
+	sent := ""
+	if fam, _ := undecFamily(); sc.BadV >= undecBase && len(fam) > 0 {
+		// the concrete undecodable message(s) of this script (members of the tree-mutation family)
+		for i, k := range sc.Msgs {
+			if k == 'b' {
+				mb := fam[(sc.BadV+i-undecBase)%len(fam)]
+				sent += fmt.Sprintf(" {undecodable request %s = %x}", mb.Name, mb.TTLV)
+			}
+		}
+	}
+	add := func(oracle, key, detail string) { vs = append(vs, violOut{oracle, "srv:" + key, detail + sent}) }
 	// goroutines of an ended connection. (A client that has only half-closed and does not read keeps
 	// the connection: the server waiting to write to it is not "keeping goroutines of an ended
 	// connection".)
@@ -1688,6 +1704,34 @@ func genConnScenarios(ctx *Ctx) [][]*connScen {
 			}
 			k++
 			one(sc)
+		}
+	}
+	// 1b. the family of correctly framed but undecodable requests (tree-level mutations of real requests:
+	//     structure ends early at every depth, empty, element dropped, extra / repeated element, wrong type,
+	//     wrong tag, wrong root): each alone on a patient connection, and - every member in the thorough
+	//     tier, one in three otherwise (every kind at least twice) - after a request, and next to a
+	//     neighbour connection of the same server that must be served
+	if fam, ferr := undecFamily(); ferr != "" {
+		ctx.Res.Fail("lts.srv: undecodable-request family: " + ferr)
+	} else {
+		perKind := map[string]int{}
+		for j, mb := range fam {
+			one(&connScen{Msgs: "b", Rd: -1, Cl: "q", HkOK: true, BadV: undecBase + j})
+			ctx.Res.Count("srv.undecodable." + mb.Kind)
+			perKind[mb.Kind]++
+			if ctx.Thor || j%3 == 0 || perKind[mb.Kind] <= 2 {
+				// (BadV + position of the `b` in the script = the member)
+				one(&connScen{Msgs: "gb", Rd: -1, Cl: "q", HkOK: true, BadV: undecBase + j - 1 + len(fam), Behav: []string{behAt(j)}})
+				groups = append(groups, []*connScen{
+					{Msgs: "b", Rd: -1, Cl: "q", HkOK: true, BadV: undecBase + j},
+					{Msgs: "gg", Rd: -1, Cl: "q", HkOK: true, Behav: []string{behAt(j), "ok"}, Seed: uint64(j) | 1},
+				})
+			}
+		}
+		for _, kd := range undecKinds() {
+			if perKind[kd] == 0 {
+				ctx.Res.Fail("lts.srv: undecodable-request family has no member of kind " + kd)
+			}
 		}
 	}
 	// 2. the client closes / half-closes at every director point and at the other triggers
@@ -2989,7 +3033,7 @@ func runLtsServer(ctx *Ctx) {
 func init() {
 	register(&Engine{
 		Name: "lts.srv",
-		Rule: "the real kmipserver.Server over unbuffered in-memory connections (half-close capable), in child processes (each child first runs a positive control of the goroutine profile and of the yield points): scripted clients (message sequences over {request, framed-undecodable (3 kinds), non-request message} up to 3 messages, pipelined, optionally made 300..70000 bytes bigger and handed to the transport in ONE write, optionally followed by a truncated message; reading all / none / one response; closing or half-closing when quiescent, after sending, after k responses, at a random time, or exactly while a server goroutine is held at one of the 6 connection yield points, the first statement of handleConn included; every request names its connection in its id and payload, a successful response must echo both) x handler outcomes {ok, typed error, plain error, panic(string, error, kmipserver.Error, int, Stringer, runtime error, nil), sleep, wait for ctx (slow to return), error / panic values whose Error, String or Unwrap methods panic} x connect hook ok/fails, in every shape of its result (failing: no context / the context it was given / a derived one — with a value, cancellable, already cancelled — / an unrelated one, returned WITH the error; succeeding: the given context or a derived one, already cancelled only without requests): a refused connection starts no handler, gets no response and no terminate hook, the terminate hook gets a context derived from the connect hook's; random scripts with random delays at the yield points; groups of 2-8 concurrent connections; iso jobs: one connection blocked (handler never returns / client does not read / connect hook does not return / goroutine held at a yield point, also behind TLS) while 2-5 neighbours must be accepted and served with the answers to THEIR requests and the blocked connection, once released, with the answer to ITS request (non-reading client: 2 processors, 27 exchanges per neighbour, repeated); tls jobs: a peer that never completes the TLS handshake must not keep others from being served; after each scenario: goroutine profile, hooks, server-side disconnect, liveness probe on a new connection, Shutdown; gates: every yield point reached, every directed point held at least once, neighbours served; distinct = distinct (scenario, outcome) line; nontrivial = at least one client message",
+		Rule: "the real kmipserver.Server over unbuffered in-memory connections (half-close capable), in child processes (each child first runs a positive control of the goroutine profile and of the yield points): scripted clients (message sequences over {request, framed-undecodable (3 kinds + the family made by tree-level mutation of real requests: structure ends early at every depth / empty / element dropped / extra / repeated / wrong type / wrong tag / wrong root, each alone, after a request and next to a neighbour connection that must be served), non-request message} up to 3 messages, pipelined, optionally made 300..70000 bytes bigger and handed to the transport in ONE write, optionally followed by a truncated message; reading all / none / one response; closing or half-closing when quiescent, after sending, after k responses, at a random time, or exactly while a server goroutine is held at one of the 6 connection yield points, the first statement of handleConn included; every request names its connection in its id and payload, a successful response must echo both) x handler outcomes {ok, typed error, plain error, panic(string, error, kmipserver.Error, int, Stringer, runtime error, nil), sleep, wait for ctx (slow to return), error / panic values whose Error, String or Unwrap methods panic} x connect hook ok/fails, in every shape of its result (failing: no context / the context it was given / a derived one — with a value, cancellable, already cancelled — / an unrelated one, returned WITH the error; succeeding: the given context or a derived one, already cancelled only without requests): a refused connection starts no handler, gets no response and no terminate hook, the terminate hook gets a context derived from the connect hook's; random scripts with random delays at the yield points; groups of 2-8 concurrent connections; iso jobs: one connection blocked (handler never returns / client does not read / connect hook does not return / goroutine held at a yield point, also behind TLS) while 2-5 neighbours must be accepted and served with the answers to THEIR requests and the blocked connection, once released, with the answer to ITS request (non-reading client: 2 processors, 27 exchanges per neighbour, repeated); tls jobs: a peer that never completes the TLS handshake must not keep others from being served; after each scenario: goroutine profile, hooks, server-side disconnect, liveness probe on a new connection, Shutdown; gates: every yield point reached, every directed point held at least once, neighbours served; distinct = distinct (scenario, outcome) line; nontrivial = at least one client message",
 		Run:  runLtsSrv,
 	})
 	register(&Engine{
